@@ -673,6 +673,14 @@ def _path_consistent_with_arg(ctx, p, argidx, cls):
     return True
 
 
+def _is_deferred_closure(prog, cname):
+    for ob in prog.bodies.values():
+        for (obi, ot, oc) in ob.calls():
+            if cname in oc.closure_args() and norm(oc.target or "").endswith("defer_with_inner"):
+                return True
+    return False
+
+
 def rule_destruct_once(ctx):
     r = RuleResult("CW-DESTRUCT-ONCE", ["C04", "C05"],
                    "every destruct event is preceded by a successful CAS on the same object that sets DESTRUCTED "
@@ -705,6 +713,27 @@ def rule_destruct_once(ctx):
             raise AnalysisError("CW-DESTRUCT-ONCE: %s has no callers" % f)
         for (b, bi, t, c) in callers:
             r.functions.add(b.name)
+            # a closure handed to defer_with_inner is an *entry point* of a destruction attempt: nothing has been
+            # established about its object when it starts
+            if b.kind == "closure" and _is_deferred_closure(prog, b.name):
+                for p in ctx.ex.paths(b):
+                    for i, e in enumerate(p.events):
+                        if e.kind != "call" or e.target != f or p.exit[0] == "diverge":
+                            continue
+                        objroot = ptr_root(e.args[param_idx - 1])
+                        if depth_param is not None:
+                            cls = _depth_class(e.args[depth_param - 1])
+                            if ctxclass != "any" and cls != "any" and cls != ctxclass:
+                                continue
+                        g = gate_on_path(p, objroot, i)
+                        label = "deferred %s -> %s" % (b.name.split("::")[-2] + "::" + b.name.split("::")[-1], " -> ".join(chain))
+                        r.instance(label, g is not None)
+                        if g is None:
+                            r.violate(prog.home(b.name), "deferred-call:%s" % f.split("::")[-1],
+                                      "a deferred closure reaches %s of an object that no CAS has marked DESTRUCTED after "
+                                      "observing strong==0 (deferred work must go through try_destruct, which re-checks and "
+                                      "marks)" % chain[-1], e.loc())
+                continue
             # closures run by higher-order models are reached through their root function
             root = b
             while root.kind == "closure":
